@@ -544,8 +544,23 @@ type zzC03Conc struct {
 	backP map[string]zzC03Pat
 }
 
-var zzC03Labels = map[string]string{"a": "ads", "b": "beta", "xa": "xads"}
+var zzC03Labels = map[string]string{"a": "ads", "b": "beta", "xa": "xads", "ar": "adsrv", "a1": "ads1"}
 var zzC03IDs = map[string]string{"c1": "kid-1", "c2": "tv2"}
+
+// zzC03BadID is the spec's BadId: a request whose ClientID label is invalid
+// (C16); zzC03BadLabel is such a label.
+const (
+	zzC03BadID    = "~bad"
+	zzC03BadLabel = "bad_id"
+)
+
+// zzC03Regexps are the regular-expression rules of AccessCore's ReMatches, by
+// shape.
+var zzC03Regexps = map[string]string{
+	"nondigit": `/^ads\D+\.com$/`,
+	"capital":  `/^Beta\.COM$/`,
+	"named":    `/^(?P<sub>ads|beta)\.org$/`,
+}
 
 // zzC03NewConc draws a concretisation.  With sock set the IPv4 universe is
 // placed under 127.0.7.0/24 so that its addresses can be bound as source
@@ -682,7 +697,13 @@ func (c *zzC03Conc) entry(e zzC03Entry) (s string) {
 
 		return c.id(e.ID)
 	case "ip":
-		return c.addr(e.Fam, e.Bits).String()
+		a := c.addr(e.Fam, e.Bits)
+		if e.Sp == "mapped" {
+			// An IPv4 address written in IPv4-mapped IPv6 form.
+			a = netip.AddrFrom16(a.As16())
+		}
+
+		return a.String()
 	}
 
 	// CIDR: the prefix bits, then host bits that are zero or (as users write
@@ -723,12 +744,21 @@ func (c *zzC03Conc) entry(e zzC03Entry) (s string) {
 		a = netip.AddrFrom16([16]byte(b))
 	}
 
+	if e.Sp == "mapped" {
+		// "::ffff:a.b.c.d/(96+n)" denotes the IPv4 prefix a.b.c.d/n.
+		return netip.PrefixFrom(netip.AddrFrom16(a.As16()), 96+off+len(e.Bits)).String()
+	}
+
 	return netip.PrefixFrom(a, off+len(e.Bits)).String()
 }
 
 func (c *zzC03Conc) id(abs string) (s string) {
 	if abs == "" {
 		return ""
+	}
+
+	if abs == zzC03BadID {
+		return zzC03BadLabel
 	}
 
 	if s = c.ids[abs]; s != "" {
@@ -757,6 +787,10 @@ func (c *zzC03Conc) name(n []string) (s string) {
 }
 
 func (c *zzC03Conc) pattern(p zzC03Pat) (s string) {
+	if p.K == "re" {
+		return zzC03Regexps[p.N[0]]
+	}
+
 	n := strings.TrimSuffix(c.name(p.N), ".")
 	switch p.K {
 	case "domain":
@@ -874,7 +908,7 @@ func (c *zzC03Conc) lists(v *zzC03Vec) (allowed, disallowed, hosts []string) {
 
 	for _, p := range given {
 		h := c.pattern(p)
-		if c.rng.Intn(4) == 0 {
+		if p.K != "re" && c.rng.Intn(4) == 0 {
 			// DNS names are case-insensitive: a pattern may be written in any
 			// case.
 			h = zzC03Spell(c.rng, h, "mixed")
@@ -1015,6 +1049,10 @@ func zzC03Classify(err error) (out string) {
 			return "refused"
 		}
 
+		if bre.Response != nil && bre.Response.Rcode == dns.RcodeServerFailure && len(bre.Response.Answer) == 0 {
+			return "servfail"
+		}
+
 		rc := -1
 		if bre.Response != nil {
 			rc = bre.Response.Rcode
@@ -1047,6 +1085,8 @@ func zzC03Reply(m *dns.Msg) (out string) {
 		return "other:refused-with-answer"
 	case dns.RcodeSuccess:
 		return "served"
+	case dns.RcodeServerFailure:
+		return "servfail"
 	default:
 		return fmt.Sprintf("other:rcode=%d", m.Rcode)
 	}
@@ -1524,6 +1564,22 @@ type zzC03AReq struct {
 // zzC03Want computes the admissible outcomes from the vector's tables: ex is
 // the spec's Excluded bit for the client, hv its HostBlocked code for the name.
 func zzC03Want(ex, hv int, proto string) (want []string) {
+	return zzC03WantID(ex, hv, proto, false)
+}
+
+// zzC03WantID is zzC03Want for a request whose ClientID label is invalid when
+// bad is set: by AccessCore's Outcomes it fails (C16), or gets the denial where
+// a denial is admissible (ex being the verdict of the client without ClientID).
+func zzC03WantID(ex, hv int, proto string, bad bool) (want []string) {
+	if bad {
+		want = []string{"servfail"}
+		if ex != 0 || hv != 0 {
+			want = append(want, zzC03Denial(proto))
+		}
+
+		return want
+	}
+
 	switch {
 	case ex == 1 || hv == 1:
 		return []string{zzC03Denial(proto)}
@@ -1666,7 +1722,7 @@ func zzC03Sweep(t testing.TB, z *zzC03Srv, u, v *zzC03Vec, rng *rand.Rand, full 
 			Name:  zzC03Spell(rng, c.name(ar.Name), ar.Spell),
 			Qtype: dns.StringToType[ar.Qtype],
 		}
-		want := zzC03Want(ex, hv, ar.Proto)
+		want := zzC03WantID(ex, hv, ar.Proto, ar.ID == zzC03BadID)
 		rec.counts["handler"]++
 
 		// The pre-request hook itself must never resolve, filter, log or
@@ -1754,6 +1810,18 @@ func zzC03Sweep(t testing.TB, z *zzC03Srv, u, v *zzC03Vec, rng *rand.Rand, full 
 						Name: u.Names[ni], Spell: zzC03Spells[rng.Intn(len(zzC03Spells))],
 						Qtype: u.Qtypes[qi], Proto: proto,
 					}, ex, v.Hv[ni*nq+qi])
+				}
+
+				if id == "" {
+					// The same client sending an invalid ClientID label.
+					for _, proto := range pickProtos(zzC03BadID) {
+						ni, qi := rng.Intn(len(u.Names)), rng.Intn(nq)
+						run(&zzC03AReq{
+							Addr: a, Form: form, ID: zzC03BadID, IDCase: []string{"plain", "mixed"}[rng.Intn(2)],
+							Name: u.Names[ni], Spell: zzC03Spells[rng.Intn(len(zzC03Spells))],
+							Qtype: u.Qtypes[qi], Proto: proto,
+						}, ex, v.Hv[ni*nq+qi])
+					}
 				}
 			}
 		}
@@ -2164,7 +2232,7 @@ func TestZZVerifC03Replay(t *testing.T) {
 
 // ---------------------------------------------------------------- direction B
 
-var zzC03BLabels = []string{"ads", "xads", "cdn", "beta", "track", "a", "shop"}
+var zzC03BLabels = []string{"ads", "xads", "cdn", "beta", "track", "a", "shop", "adsrv", "ads1"}
 var zzC03BTLDs = []string{"com", "org", "net"}
 var zzC03BIDs = []string{"phone", "tv-2", "kid", "lap-top", "guest7", "x"}
 
@@ -2207,6 +2275,9 @@ func zzC03RandLists(rng *rand.Rand, w int) (v *zzC03Vec) {
 			switch rng.Intn(6) {
 			case 0, 1:
 				e = zzC03Entry{K: "ip", Fam: fam, Bits: zzC03RandBits(rng, w), Sp: "lower"}
+				if fam == "v4" && rng.Intn(5) == 0 {
+					e.Sp = "mapped"
+				}
 			case 2, 3, 4:
 				// Real-looking CIDR mix: every prefix length, short ones too,
 				// the boundary lengths 0 and w more often than their share,
@@ -2240,6 +2311,11 @@ func zzC03RandLists(rng *rand.Rand, w int) (v *zzC03Vec) {
 					// whether it names the ClientID.
 					e.Sp = "mixed"
 				}
+			}
+
+			if e.K == "cidr" && e.Fam == "v4" && rng.Intn(6) == 0 {
+				// An IPv4 prefix written as "::ffff:a.b.c.d/(96+n)".
+				e.Sp = "mapped"
 			}
 
 			if k := zzC03EntryKey(e); !used[k] {
@@ -2280,6 +2356,11 @@ func zzC03RandLists(rng *rand.Rand, w int) (v *zzC03Vec) {
 			if rng.Intn(5) == 0 {
 				p.K, p.N = "all", []string{}
 			}
+		}
+
+		if rng.Intn(6) == 0 {
+			// A regular-expression rule.
+			p = zzC03Pat{K: "re", N: []string{[]string{"nondigit", "capital", "named"}[rng.Intn(3)]}}
 		}
 
 		if k := fmt.Sprint(p); !seen[k] {
@@ -2444,13 +2525,26 @@ func zzC03RandReq(rng *rand.Rand, v *zzC03Vec, w int, protos []string) (ar *zzC0
 		}
 	}
 
+	if (ar.Proto == "tls" || ar.Proto == "quic" || ar.Proto == "https") && rng.Intn(14) == 0 {
+		// An invalid ClientID label.
+		ar.ID = zzC03BadID
+	}
+
 	ar.IDCase = []string{"plain", "mixed", "upper"}[rng.Intn(3)]
 	ar.Name = zzC03RandName(rng)
 	qt := ""
 	if len(v.Hosts) > 0 && rng.Intn(3) > 0 {
 		p := v.Hosts[rng.Intn(len(v.Hosts))]
 		qt = p.Qt
-		if len(p.N) > 0 {
+		switch {
+		case p.K == "re":
+			// Around what the regular expression matches.
+			first := map[string][]string{
+				"nondigit": {"adsrv", "ads1", "ads"}, "capital": {"beta", "xbeta"}, "named": {"ads", "beta", "cdn"},
+			}[p.N[0]]
+			tld := map[string]string{"nondigit": "com", "capital": "com", "named": "org"}[p.N[0]]
+			ar.Name = []string{first[rng.Intn(len(first))], tld}
+		case len(p.N) > 0:
 			ar.Name = append([]string{}, p.N...)
 		}
 
